@@ -1,0 +1,16 @@
+//! Verification-only access to crate-private `Type` relations.
+//! Compiled only with the `__verif` feature; not part of the public API.
+use super::Type;
+
+pub fn equal_ignoring_nullability(a: &Type, b: &Type) -> bool {
+    a.equal_ignoring_nullability(b)
+}
+
+pub fn is_orderable(a: &Type) -> bool {
+    a.is_orderable()
+}
+
+/// `true` iff `maybe_subtype` is a scalar-only subtype of `ty`.
+pub fn is_scalar_only_subtype(ty: &Type, maybe_subtype: &Type) -> bool {
+    ty.is_scalar_only_subtype(maybe_subtype)
+}
